@@ -95,6 +95,7 @@ class SymInt:
         if isinstance(v, bool):
             v = int(v)
         if isinstance(v, int):
+            v = int.__add__(v, 0)  # plain int (int subclasses such as enum members may print differently)
             return SymInt(z3.BitVecVal(v, fit(v, v)), v, v)
         raise TypeError(f"cannot lift {type(v)}")
 
@@ -629,6 +630,10 @@ class SymSeq:
         return (not r) if isinstance(r, bool) else SymBool(z3.Not(r.t))
 
     def __hash__(self):
+        if sum(1 for x in self.items() if isinstance(x, SymInt)) > 2:
+            from .engine import Unsupported
+
+            raise Unsupported("a byte string with more than 2 symbolic octets is used as a hash key by native code")
         return hash(bytes(_eng().concretize(x) if isinstance(x, SymInt) else x for x in self.items()))
 
     def tobytes(self):
@@ -682,6 +687,18 @@ class SymBytes(SymSeq):
     def __mul__(self, k):
         k = alloc_guard(k)
         return SymBytes(self._items * k).norm()
+
+    def ljust(self, width, fill=b" "):
+        pad = width - len(self._items)
+        if not isinstance(pad, int):
+            pad = 0 if _t(pad <= 0) else alloc_guard(pad)
+        return SymBytes(self._items + list(bytes(fill)) * max(pad, 0)).norm()
+
+    def rjust(self, width, fill=b" "):
+        pad = width - len(self._items)
+        if not isinstance(pad, int):
+            pad = 0 if _t(pad <= 0) else alloc_guard(pad)
+        return SymBytes(list(bytes(fill)) * max(pad, 0) + self._items).norm()
 
     def decode(self, enc="utf-8", errors="strict"):
         e = enc.lower().replace("-", "").replace("_", "")
@@ -1421,6 +1438,18 @@ class SymBlob:
     def tobytes(self):
         return SymBlob(self.segs, "bytes")
 
+    def ljust(self, width, fill=b" "):
+        pad = width - self.sym_len()
+        if not isinstance(pad, int):
+            pad = 0 if _t(pad <= 0) else alloc_guard(pad)
+        return SymBlob(self.segs + [("lit", list(bytes(fill)) * max(pad, 0))], self.kind)
+
+    def rjust(self, width, fill=b" "):
+        pad = width - self.sym_len()
+        if not isinstance(pad, int):
+            pad = 0 if _t(pad <= 0) else alloc_guard(pad)
+        return SymBlob([("lit", list(bytes(fill)) * max(pad, 0))] + self.segs, self.kind)
+
     def copy_as(self, kind):
         return SymBlob([(("lit", list(s[1])) if s[0] == "lit" else s) for s in self.segs], kind)
 
@@ -1586,3 +1615,55 @@ def tobool_term(v):
 def blen(x):
     """length of any byte-string proxy: int or SymInt"""
     return x.sym_len() if isinstance(x, SymBlob) else len(x)
+
+
+class SymKey:
+    """wrapper under which a symbolic key is stored in a real dict (identity hash); lookups compare the wrapped values with the solver"""
+
+    __slots__ = ("value",)
+
+    def __init__(self, value):
+        self.value = value
+
+    def __repr__(self):
+        return f"SymKey({self.value!r})"
+
+
+def is_sym_key(k):
+    if isinstance(k, (SymSeq, SymStr, SymBlob)):
+        return True
+    if isinstance(k, SymInt) and k._wide():
+        return True
+    if isinstance(k, tuple):
+        return any(is_sym_key(x) for x in k)
+    return False
+
+
+def sym_equal(a, b):
+    """equality decided with the solver (forks when undecided); tuples element-wise"""
+    if isinstance(a, tuple) or isinstance(b, tuple):
+        if not (isinstance(a, tuple) and isinstance(b, tuple)) or len(a) != len(b):
+            return False
+        return all(sym_equal(x, y) for x, y in zip(a, b))
+    if isinstance(a, SymKey):
+        a = a.value
+    if isinstance(b, SymKey):
+        b = b.value
+    try:
+        r = a == b
+    except TypeError:
+        return False
+    if isinstance(r, SymBool):
+        return bool(r)
+    return bool(r)
+
+
+def dict_find(d, key):
+    """the key object of d that equals key, or None"""
+    for k in list(d):
+        kk = k.value if isinstance(k, SymKey) else k
+        if type(kk) is not type(key) and not (is_byteslike(kk) and is_byteslike(key)) and not (isinstance(kk, (int, SymInt)) and isinstance(key, (int, SymInt))):
+            continue
+        if sym_equal(kk, key):
+            return k
+    return None
